@@ -200,13 +200,11 @@ Theorem C12_betacf_fuel : forall x a b,
 Proof. exact betacf_fuel. Qed.
 Print Assumptions C12_betacf_fuel.
 
-(** bisectBool: PARTIAL. Proved: it panics iff f(low) = f(high), and any pair
-    it returns brackets a flip of f and meets the loop's exit condition.
-    Not proved (tested: fuel 4096 never exhausted in the replay cases):
-      forall f low high, low < high finite -> exists fuel <= 2200, the loop
-      terminates, and low <= x1 < x2 <= high
-    (needs: RN((a+b)/2) lies in [a,b] and the number of floats strictly between
-    the ends decreases; Flocq). *)
+(** bisectBool, any inputs (also out of range, NaN, invalid xtol) and any fuel:
+    it panics iff f(low) = f(high), and any pair it returns brackets a flip of
+    f and meets the loop's exit condition. Termination within the fuel and the
+    ordering low <= x1 < x2 <= high are [C12_bisect_brackets] below (in range);
+    out of range the ordering fails ([C12_bisect_overflow_escapes]). *)
 Theorem C12_bisect_brackets_partial : forall g fuel low high xtol,
   (bisect_bool (total_f g) fuel low high xtol = BPanic <-> g low = g high) /\
   bisect_bool (total_f g) fuel low high xtol <> BMiss /\
@@ -258,3 +256,203 @@ Theorem C12_mean_in_hull_b64 : forall xs : list B64.b64,
   B64.b64_le (StatsF.mean_f xs) (snd (StatsF.bounds_f xs)) = true.
 Proof. exact LegacyMean.min_le_mean_le_max_b64. Qed.
 Print Assumptions C12_mean_in_hull_b64.
+
+(** ** binary64 theorems through Flocq (real-number axioms of the standard library) *)
+From Perf Require Proofs.BisectReal Proofs.BisectFull Proofs.TDistRange Proofs.PercentileB64
+     Proofs.PercentileHull Proofs.VarianceB64 Proofs.BenchMath.
+From Coq Require Sorting.Sorted.
+
+(** bisectBool, total correctness in range: for every boolean function g on
+    binary64 values and valid finite low < high below 2^1023 in magnitude with
+    g low <> g high, any fuel >= bisect_steps_bound = 2296 (the model runs with
+    bisect_fuel = 4096) is enough: the loop returns x1, x2 with
+    low <= x1 < x2 <= high, g x1 = g low, g x2 = g high, and either
+    x2 -64 x1 <= xtol or no binary64 value lies strictly between x1 and x2.
+    (xtol is arbitrary: NaN or a negative xtol simply never satisfies the first
+    exit test and the loop runs down to neighbouring values.) *)
+Theorem C12_bisect_brackets : forall (g : b64 -> bool) fuel low high xtol,
+  SpecFloat.valid_binary 53 1024 low = true -> SpecFloat.valid_binary 53 1024 high = true ->
+  b64_lt low high = true ->
+  BisectFull.bisect_in_range low = true -> BisectFull.bisect_in_range high = true ->
+  g low <> g high ->
+  (BisectFull.bisect_steps_bound <= fuel)%nat ->
+  exists x1 x2,
+    bisect_bool (total_f g) fuel low high xtol = BRes x1 x2 /\
+    SpecFloat.valid_binary 53 1024 x1 = true /\ SpecFloat.valid_binary 53 1024 x2 = true /\
+    b64_le low x1 = true /\ b64_lt x1 x2 = true /\ b64_le x2 high = true /\
+    g x1 = g low /\ g x2 = g high /\
+    (b64_le (b64_sub x2 x1) xtol = true \/ BisectFull.b64_adjacent x1 x2).
+Proof. exact BisectFull.bisect_brackets. Qed.
+Print Assumptions C12_bisect_brackets.
+
+(** the explicit bound and the model's fuel *)
+Theorem C12_bisect_fuel_sufficient :
+  BisectFull.bisect_steps_bound = 2296%nat /\ (BisectFull.bisect_steps_bound <= bisect_fuel)%nat.
+Proof. exact BisectFull.bisect_bound_and_fuel. Qed.
+Print Assumptions C12_bisect_fuel_sufficient.
+
+(** what happens when the midpoint rounds to an endpoint: in range the midpoint
+    as coded, (high + low) / 2 with two roundings, is the correctly rounded true
+    midpoint; it lies in [low, high], and it equals an endpoint exactly when low
+    and high are neighbouring binary64 values (the loop then returns them) *)
+Theorem C12_bisect_mid_collapse_iff_adjacent : forall low high,
+  SpecFloat.valid_binary 53 1024 low = true -> SpecFloat.valid_binary 53 1024 high = true ->
+  b64_lt low high = true ->
+  BisectFull.bisect_in_range low = true -> BisectFull.bisect_in_range high = true ->
+  let mid := b64_div (b64_add high low) k_two in
+  (b64_eq mid high || b64_eq mid low = true <-> BisectFull.b64_adjacent low high)
+  /\ b64_le low mid = true /\ b64_le mid high = true.
+Proof. exact BisectFull.bisect_mid_collapse_iff_adjacent. Qed.
+Print Assumptions C12_bisect_mid_collapse_iff_adjacent.
+
+(** out of range (|low| or |high| >= 2^1023) high + low overflows: the returned
+    pair is (2^1023, +Inf) for low = 2^1023, high = 1.5 * 2^1023 — not within
+    [low, high]. A finding about bisectBool for astronomically large brackets. *)
+Theorem C12_bisect_overflow_escapes :
+  SpecFloat.valid_binary 53 1024 BisectFull.ov_low = true /\
+  SpecFloat.valid_binary 53 1024 BisectFull.ov_high = true /\
+  b64_lt BisectFull.ov_low BisectFull.ov_high = true /\
+  BisectFull.ov_g BisectFull.ov_low <> BisectFull.ov_g BisectFull.ov_high /\
+  bisect_bool (total_f BisectFull.ov_g) bisect_fuel BisectFull.ov_low BisectFull.ov_high k_xtol
+    = BRes BisectFull.ov_low (S754_infinity false) /\
+  b64_le (S754_infinity false) BisectFull.ov_high = false.
+Proof. exact BisectFull.bisect_overflow_escapes. Qed.
+Print Assumptions C12_bisect_overflow_escapes.
+
+(** the generic InvCDF skeleton (dist.go) for a total CDF c (any function on
+    binary64 values) and 0 < y < 1: the bracket expansion ends within its fuel
+    (xdelta doubles to +Inf in at most 1024 steps, after which hiX = +Inf or
+    loX = -Inf stops the loop; 1026 <= expand_fuel = 1200) and hands over ends
+    that are valid and finite or the infinity InvCDF returns directly ... *)
+From Perf Require Proofs.InvCDFTotal.
+Theorem C12_invcdf_bracket_total : forall (c : b64 -> b64) (y : b64),
+  exists (Lo Hi : BinarySingleNaN.binary_float 53 1024) loY hiY,
+    InvCDFTotal.bracket_of c y
+      = Val (BinarySingleNaN.B2SF Lo, loY, BinarySingleNaN.B2SF Hi, hiY)
+    /\ (Lo = InvCDFTotal.Ninf \/ BinarySingleNaN.is_finite Lo = true)
+    /\ (Hi = InvCDFTotal.Pinf \/ BinarySingleNaN.is_finite Hi = true).
+Proof. exact InvCDFTotal.bracket_total. Qed.
+Print Assumptions C12_invcdf_bracket_total.
+
+(** ... and InvCDF as a whole then never runs out of fuel in either loop nor
+    lacks an oracle answer, when a finite bracket is below 2^1023 in magnitude
+    (it returns a value, or panics when the predicate CDF(x) < y does not flip
+    over the bracket) *)
+Theorem C12_invcdf_total : forall (c : b64 -> b64) bounds y,
+  b64_lt b64_zero y = true -> b64_lt y b64_one = true ->
+  (forall loX loY hiX hiY, InvCDFTotal.bracket_of c y = Val (loX, loY, hiX, hiY) ->
+     b64_is_finite loX = true -> b64_is_finite hiX = true ->
+     BisectFull.bisect_in_range loX = true /\ BisectFull.bisect_in_range hiX = true) ->
+  inv_cdf (InvCDFTotal.tcdf_total c) bounds y <> IFuel /\
+  inv_cdf (InvCDFTotal.tcdf_total c) bounds y <> IMiss.
+Proof. exact InvCDFTotal.inv_cdf_total. Qed.
+Print Assumptions C12_invcdf_total.
+
+Example C12_example_invcdf :
+  let c := fun x : b64 => if b64_lt x (b64_of_Z 3) then b64_of_ZE 1 (-2) else b64_of_ZE 3 (-2) in
+  let y := k_half in
+  b64_lt b64_zero y = true /\ b64_lt y b64_one = true /\
+  InvCDFTotal.bracket_of c y = Val (b64_of_Z 1, b64_of_ZE 1 (-2), b64_of_Z 3, b64_of_ZE 3 (-2)) /\
+  BisectFull.bisect_in_range (b64_of_Z 1) = true /\ BisectFull.bisect_in_range (b64_of_Z 3) = true /\
+  inv_cdf (InvCDFTotal.tcdf_total c) (k_ninf, k_inf) y = IVal (b64_of_Z 3).
+Proof. vm_compute. repeat split. Qed.
+
+(** TDist.CDF as coded stays in [0,1] in binary64 whenever mathBetaInc returns
+    binary64 values in [0,1]: any V (also V <= 0, NaN), any non-NaN x (also
+    +-Inf); x > 0 gives [1/2, 1] (both forms of the branch), x < 0 gives
+    [0, 1/2] (the reflection), x = +-0 gives 1/2. For a NaN x the code returns NaN. *)
+Theorem C12_tcdf_in_unit_interval : forall betainc, TDistRange.unit_oracle betainc ->
+  forall v x c, b64_is_nan x = false -> tcdf betainc v x = Val c ->
+  SpecFloat.valid_binary 53 1024 c = true /\ b64_le b64_zero c = true /\ b64_le c b64_one = true.
+Proof. exact TDistRange.tcdf_in_unit_interval. Qed.
+Print Assumptions C12_tcdf_in_unit_interval.
+
+Theorem C12_tcdf_range : forall betainc, TDistRange.unit_oracle betainc ->
+  forall v x c, b64_is_nan x = false -> tcdf betainc v x = Val c ->
+  (b64_eq x b64_zero = true -> c = k_half) /\
+  (b64_gt x b64_zero = true -> TDistRange.in_b64_range k_half b64_one c) /\
+  (b64_lt x b64_zero = true -> TDistRange.in_b64_range b64_zero k_half c) /\
+  TDistRange.in_b64_range b64_zero b64_one c.
+Proof. exact TDistRange.tcdf_range. Qed.
+Print Assumptions C12_tcdf_range.
+
+(** the R8 interpolation as coded, a + frac * (b - a) with each operation
+    rounded, between neighbouring order statistics a <= b and 0 <= frac < 1,
+    lies in [a, b] when b - a does not overflow. (frac < 1 is needed:
+    PercentileB64.interp_frac_one_escapes.) *)
+Theorem C12_percentile_between_neighbours_b64 : forall a b frac : b64,
+  SpecFloat.valid_binary 53 1024 a = true -> SpecFloat.valid_binary 53 1024 b = true ->
+  SpecFloat.valid_binary 53 1024 frac = true ->
+  b64_is_finite a = true -> b64_is_finite b = true ->
+  b64_le a b = true -> b64_le b64_zero frac = true -> b64_lt frac b64_one = true ->
+  b64_is_finite (b64_sub b a) = true ->
+  let r := b64_add a (b64_mul frac (b64_sub b a)) in
+  SpecFloat.valid_binary 53 1024 r = true /\ b64_is_finite r = true /\
+  b64_le a r = true /\ b64_le r b = true.
+Proof. exact PercentileB64.percentile_between_neighbours_b64. Qed.
+Print Assumptions C12_percentile_between_neighbours_b64.
+
+(** Sample.Percentile as coded (R8 position, math.Modf, int(), interpolation;
+    sorting a copy unless the sample says it is sorted) is within Sample.Bounds
+    in binary64: min <= Percentile(p) <= max for every non-NaN p, for every
+    non-empty sample of fewer than 2^53 valid finite values, when max - min
+    does not overflow *)
+Theorem C12_percentile_in_hull_b64 : forall (sorted : bool) (xs : list b64) (p : b64),
+  xs <> [] -> Forall PercentileHull.vf xs ->
+  (sorted = true -> Sorted.StronglySorted BenchMath.leP xs) ->
+  (Z.of_nat (length xs) < 2 ^ 53)%Z ->
+  SpecFloat.valid_binary 53 1024 p = true -> b64_is_nan p = false ->
+  let mn := fst (sample_bounds_f sorted xs) in
+  let mx := snd (sample_bounds_f sorted xs) in
+  b64_is_finite (b64_sub mx mn) = true ->
+  b64_le mn (percentile_f sorted xs p) = true /\ b64_le (percentile_f sorted xs p) mx = true.
+Proof. exact PercentileHull.percentile_in_hull_b64. Qed.
+Print Assumptions C12_percentile_in_hull_b64.
+
+(** Sample.Variance (Welford as coded) in binary64 is never negative and never
+    NaN (it may be +Inf) when no difference x - mean overflows; without that
+    guard it can be -Inf or NaN (VarianceB64.variance_overflow_negative) *)
+Theorem C12_variance_nonneg_b64 : forall xs : list b64,
+  xs <> [] ->
+  Forall (fun x => SpecFloat.valid_binary 53 1024 x = true /\ b64_is_finite x = true) xs ->
+  (Z.of_nat (length xs) < 2 ^ 53)%Z ->
+  Legacy.mean_no_overflow xs = true ->
+  b64_le b64_zero (variance_f xs) = true.
+Proof. exact VarianceB64.variance_nonneg_b64. Qed.
+Print Assumptions C12_variance_nonneg_b64.
+
+(** non-vacuity of the hypotheses above *)
+Example C12_example_b64_ranges :
+  let g := fun x : b64 => b64_lt x (b64_of_Z 3) in
+  (* bisect: [1, 10], flip at 3 *)
+  SpecFloat.valid_binary 53 1024 (b64_of_Z 1) = true /\ b64_lt (b64_of_Z 1) (b64_of_Z 10) = true /\
+  BisectFull.bisect_in_range (b64_of_Z 1) = true /\ BisectFull.bisect_in_range (b64_of_Z 10) = true /\
+  g (b64_of_Z 1) <> g (b64_of_Z 10) /\
+  match bisect_bool (total_f g) bisect_fuel (b64_of_Z 1) (b64_of_Z 10) k_xtol with
+  | BRes x1 x2 => b64_lt x1 (b64_of_Z 3) && b64_eq x2 (b64_of_Z 3)
+  | _ => false
+  end = true /\
+  (* percentile: sorted sample, p = 0.3 *)
+  (let xs := [b64_of_Z 1; b64_of_Z 2; b64_of_Z 10] in
+   let p := b64_div (b64_of_Z 3) (b64_of_Z 10) in
+   b64_is_finite (b64_sub (snd (sample_bounds_f true xs)) (fst (sample_bounds_f true xs))) = true /\
+   b64_is_nan p = false /\ b64_lt (b64_of_Z 1) (percentile_f true xs p) = true /\
+   b64_lt (percentile_f true xs p) (b64_of_Z 2) = true /\
+   Legacy.mean_no_overflow xs = true /\ b64_lt b64_zero (variance_f xs) = true) /\
+  (* t CDF with an oracle that always answers 1/4 *)
+  (tcdf (fun _ _ _ => Val (b64_of_ZE 1 (-2))) (b64_of_Z 5) (b64_of_Z 1) = Val (b64_of_ZE 5 (-3)) /\
+   tcdf (fun _ _ _ => Val (b64_of_ZE 1 (-2))) (b64_of_Z 5) (b64_of_Z (-3)) = Val (b64_of_ZE 1 (-3))).
+Proof.
+  vm_compute. repeat split; discriminate.
+Qed.
+
+Example C12_example_unit_oracle : TDistRange.unit_oracle (fun _ _ _ => Val (b64_of_ZE 1 (-2))).
+Proof. intros x a b i E. injection E as <-. vm_compute. repeat split. Qed.
+
+Example C12_example_sorted : Sorted.StronglySorted BenchMath.leP [b64_of_Z 1; b64_of_Z 2; b64_of_Z 10]
+  /\ Forall PercentileHull.vf [b64_of_Z 1; b64_of_Z 2; b64_of_Z 10].
+Proof.
+  split.
+  - repeat constructor.
+  - repeat constructor.
+Qed.
